@@ -114,3 +114,20 @@ def flip_nibble(hexstr, pos=0):
     c = hexstr[pos]
     r = "0" if c != "0" else "1"
     return hexstr[:pos] + r + hexstr[pos + 1:]
+
+
+_LOOKALIKE = {"a": "\u0430", "c": "\u0441", "e": "\u0435"}
+
+
+def lookalike(hexstr, pos=0):
+    """A wrong checksum that LOOKS right: one character replaced by a non-ASCII look-alike (Cyrillic a / c / e, or a
+    full-width digit) - what a copy from a rendered page can produce.  Never equal to the true digest."""
+    n = len(hexstr)
+    for d in range(n):
+        i = (pos + d) % n
+        ch = hexstr[i]
+        if ch in _LOOKALIKE:
+            return hexstr[:i] + _LOOKALIKE[ch] + hexstr[i + 1:]
+        if ch.isdigit():
+            return hexstr[:i] + chr(0xFF10 + int(ch)) + hexstr[i + 1:]
+    return hexstr[:-1] + "\u0430"
